@@ -1115,13 +1115,15 @@ def tunnel_distance(lat1, lon1, lat2, lon2):
     Returns:
         Tunnel distance in meters
     """
-    points1 = np.column_stack(
-        geocentric2cart(constants.earth_radius, lat1, lon1)
-    )
-    points2 = np.column_stack(
-        geocentric2cart(constants.earth_radius, lat2, lon2)
-    )
-    return np.sqrt(np.sum((points2 - points1)**2, axis=1))
+    x1, y1, z1 = geocentric2cart(
+        constants.earth_radius, np.asarray(lat1), np.asarray(lon1))
+    x2, y2, z2 = geocentric2cart(
+        constants.earth_radius, np.asarray(lat2), np.asarray(lon2))
+
+    # Component-wise: the arguments may have any broadcastable shape (two
+    # scalars still give an array of shape (1,)).
+    return np.atleast_1d(
+        np.sqrt((x2 - x1)**2 + (y2 - y1)**2 + (z2 - z1)**2))
 
 
 def _broadcast(*args):
